@@ -313,13 +313,13 @@ def run_impl(exe, reqs, workdir, env=None):
 
 
 ENV_CLAUSE_READS = ("the answer depends on process-global state the library does not own: with every sticky floating-point "
-                    "exception flag raised and errno = ERANGE before the call it differs from the answer in a clean environment")
+                    "exception flag raised and a stale errno (ERANGE or EDOM) before the call it differs from the answer in a clean environment")
 ENV_CLAUSE_LEAVES = "the library leaves process-global state changed behind a call (rounding mode / stream formatting / global locale)"
 
 
 def environment_replica(mod, exe, reqs, impl, model, workdir, ctx, judge):
     """DESIGN.md section 16 (sixth wave): the same requests once more in a 'dirty' environment (HZ_DIRTY_ENV: sticky FP flags
-    raised, errno = ERANGE before every request body). Every model is a function of the arguments and the modelled state only,
+    raised, errno = ERANGE or EDOM before every request body). Every model is a function of the arguments and the modelled state only,
     so the two runs must agree bit for bit; where they do not, the property's own oracle judges the dirty answer (`judge`), so
     that a violated clause is reported with its request as a concrete input. Returns the list of failures."""
     if os.environ.get("LP_NO_ENV_REPLICA") == "1" or not reqs:
@@ -343,7 +343,7 @@ def environment_replica(mod, exe, reqs, impl, model, workdir, ctx, judge):
         except Exception as e:
             sub = [dict(kind="corr", clause="comparator exception (environment replica)", detail=repr(e))]
         for f in sub:
-            f["clause"] = f["clause"] + " [with sticky FP flags raised / errno = ERANGE before the call]"
+            f["clause"] = f["clause"] + " [with sticky FP flags raised / stale errno (ERANGE or EDOM) before the call]"
             f.update(req=rq, impl=b, model=model.get(i, "") if model else "")
             out.append(f)
         out.append(dict(kind="corr", clause=ENV_CLAUSE_READS, detail="clean: %s | dirty: %s" % (a[:300], b[:300]), req=rq, impl=b,
